@@ -49,12 +49,26 @@ Theorem c12_removed_clusters_are_gone : forall ops names,
 Proof. exact (removed_clusters_are_gone endpoints_update_per_locality). Qed.
 Print Assumptions c12_removed_clusters_are_gone.
 
-(* an endpoint assignment yields the union of the endpoints of all its localities *)
+(* per address the last update wins: after an append the live (and stored) host of every address is the first one
+   carrying it in (appended batch ++ previous hosts) - a re-appended address takes the NEW weight / hostname /
+   tls_disable / metadata, inside one batch the first entry wins, the other hosts are kept *)
+Theorem c12_append_takes_new_attributes : forall ops name hosts c0,
+  let s0 := final endpoints_update_per_locality ops in
+  let s := final endpoints_update_per_locality (ops ++ [OAppendHosts name hosts]) in
+  mget name (st_clusters s0) = Some c0 ->
+  exists c, mget name (st_clusters s) = Some c /\ mget name (st_cfg_clusters s) = Some c /\ cl_lb c = cl_lb c0 /\
+            forall a, find_host a (cl_hosts c) = find_host a (hosts ++ cl_hosts c0).
+Proof. exact (append_takes_new_attributes endpoints_update_per_locality). Qed.
+Print Assumptions c12_append_takes_new_attributes.
+
+(* an endpoint assignment yields the union of the endpoints of all its localities; an address listed several times
+   takes the attributes of its first occurrence (load_balancing_weight clamped to [1,128]) *)
 Theorem c12_endpoints_union : forall s name ls c,
   mget name (st_clusters s) = Some c ->
   let s' := fst (step_endpoints endpoints_update_per_locality s name ls) in
   exists c', mget name (st_clusters s') = Some c' /\ cl_lb c' = cl_lb c /\
-             forall a, In a (cl_hosts c') <-> exists l, In l ls /\ In a l.
+             (forall a, In a (map h_addr (cl_hosts c')) <-> exists l, In l ls /\ In a (map ep_addr l)) /\
+             (forall a, find_host a (cl_hosts c') = find_host a (map ep_to_host (List.concat ls))).
 Proof. exact endpoints_union. Qed.
 Print Assumptions c12_endpoints_union.
 
@@ -62,8 +76,8 @@ Print Assumptions c12_endpoints_union.
    sensitivity to the shape read from the source is visible *)
 Theorem c12_endpoints_union_refuted_per_locality :
   let s := fst (step true init_state (OAddOrUpdateCluster "c" 1 [])) in
-  let s' := fst (step_endpoints true s "c" [["10.0.0.1:80"]; ["10.0.0.2:80"]]) in
-  option_map cl_hosts (mget "c" (st_clusters s')) = Some ["10.0.0.2:80"].
+  let s' := fst (step_endpoints true s "c" [[Build_endpoint "10.0.0.1:80" None]; [Build_endpoint "10.0.0.2:80" None]]) in
+  option_map (fun c => map h_addr (cl_hosts c)) (mget "c" (st_clusters s')) = Some ["10.0.0.2:80"].
 Proof. exact endpoints_union_fails_per_locality. Qed.
 Print Assumptions c12_endpoints_union_refuted_per_locality.
 
@@ -82,19 +96,24 @@ Print Assumptions c12_swap_atomic.
 (* non-vacuity: a history with an accepted and a rejected router update, a route addition through the default virtual
    host, cluster updates, a removal and a two-locality endpoint assignment *)
 Definition c12_ex_route (cl : string) : route := Build_route (Build_rmatch "/" "" None [] [] []) cl false.
+Definition c12_h (a : string) (w : nat) : host := Build_host a w "" false [].
 Definition c12_ex_ops : list op :=
   [ OAddOrUpdateRouters "r" [Build_vhost ["a.com"] [c12_ex_route "one"]; Build_vhost ["*"] []];
     OAddOrUpdateRouters "r" [Build_vhost ["a.com"; "A.com"] []];
     OAddRoute "r" "nowhere" (c12_ex_route "added");
-    OAddOrUpdateCluster "c" 1 ["10.0.0.9:80"];
-    OAppendHosts "c" ["10.0.0.1:80"; "10.0.0.1:80"];
+    OAddOrUpdateCluster "c" 1 [c12_h "10.0.0.9:80" 1];
+    OAppendHosts "c" [c12_h "10.0.0.1:80" 1; c12_h "10.0.0.1:80" 2];
+    OAppendHosts "c" [Build_host "10.0.0.1:80" 7 "new-name" true [("zone", "b")]];
     OAddOrUpdateCluster "d" 2 [];
     ORemoveClusters ["d"];
-    OEndpoints "c" [["10.0.0.1:80"]; ["10.0.0.2:80"; "10.0.0.3:80"]] ].
+    OEndpoints "e" [[Build_endpoint "10.0.0.1:80" None]];
+    OAddOrUpdateCluster "e" 3 [];
+    OEndpoints "e" [[Build_endpoint "10.0.0.1:80" (Some 500)]; [Build_endpoint "10.0.0.2:80" None; Build_endpoint "10.0.0.1:80" (Some 3)]] ].
 Example c12_example :
   let (s, rs) := run endpoints_update_per_locality init_state c12_ex_ops in
-  rs = [true; false; true; true; true; true; true; true] /\
-  option_map cl_hosts (mget "c" (st_clusters s)) = Some ["10.0.0.1:80"; "10.0.0.2:80"; "10.0.0.3:80"] /\
+  rs = [true; false; true; true; true; true; true; true; false; true; true] /\
+  option_map cl_hosts (mget "c" (st_clusters s)) = Some [Build_host "10.0.0.1:80" 7 "new-name" true [("zone", "b")]] /\
+  option_map cl_hosts (mget "e" (st_cfg_clusters s)) = Some [c12_h "10.0.0.1:80" 128; c12_h "10.0.0.2:80" 0] /\
   mget "d" (st_clusters s) = None /\
   option_map (fun w => option_map r_cluster (lookup (rw_live w)
      (Build_request [("x-mosn-host", "other.org"); ("x-mosn-path", "/x")] [] [] []))) (mget "r" (st_routers s)) = Some (Some "added") /\
